@@ -145,6 +145,7 @@ ABSL_ATTRIBUTE_NOINLINE void GarbageCollector<R>::keep_reclaim() noexcept {
       tasks.clear();
       running = consume_reclaim_task(batch, tasks);
       index = 0;
+      BABYLON_VERIF_POINT("gc:consumed");
     }
 
     auto reclaimed = reclaim_start_from(index, tasks);
@@ -152,6 +153,7 @@ ABSL_ATTRIBUTE_NOINLINE void GarbageCollector<R>::keep_reclaim() noexcept {
 
     if (reclaimed < 100) {
       backoff_us = ::std::min<size_t>(backoff_us + 10, 100000);
+      BABYLON_VERIF_POINT("gc:backoff");
       ::usleep(backoff_us);
     } else if (reclaimed >= batch) {
       backoff_us >>= 1;
